@@ -177,3 +177,77 @@ Proof.
     apply mem_apply_ok. now apply (mem_fold_ok C0 l).
   - intros l. now apply (mem_fold_ok C0 l).
 Qed.
+
+(* ---------------------------------------------------------------- *)
+(* what an accepted run gives: a state produced by the executable step function from the
+   initial state, with the simulator's membership function, is a reachable state of the
+   model, so every safety theorem of the combined stage holds for it *)
+
+Section AcceptedRun.
+  Variable C0 : list id.
+  Hypothesis ND : NoDup C0.
+
+  Let HC := cfg_sim_contract C0 ND.
+
+  Lemma accepted_reachable ls s :
+    run4_sim C0 init4 ls = Some s -> reachable4 (cfg_sim C0) is_cc_sim s.
+  Proof. apply run4_reachable. Qed.
+
+  Lemma accepted_steps ls s s' :
+    run4_sim C0 s ls = Some s' -> steps4 (cfg_sim C0) is_cc_sim s ls s'.
+  Proof. apply run4_sound. Qed.
+
+  Lemma accepted_election_safety ls s i j :
+    run4_sim C0 init4 ls = Some s ->
+    role (nodes (base3 (base4 s)) i) = Leader -> role (nodes (base3 (base4 s)) j) = Leader ->
+    term (nodes (base3 (base4 s)) i) = term (nodes (base3 (base4 s)) j) -> i = j.
+  Proof. intros H. apply (election_safety4 _ _ HC). now apply accepted_reachable with ls. Qed.
+
+  Lemma accepted_log_matching ls s i j k :
+    run4_sim C0 init4 ls = Some s -> 1 <= k ->
+    k <= length (log (nodes (base3 (base4 s)) i)) -> k <= length (log (nodes (base3 (base4 s)) j)) ->
+    term_at (log (nodes (base3 (base4 s)) i)) k = term_at (log (nodes (base3 (base4 s)) j)) k ->
+    firstn k (log (nodes (base3 (base4 s)) i)) = firstn k (log (nodes (base3 (base4 s)) j)).
+  Proof. intros H. apply (log_matching4 _ _ HC). now apply accepted_reachable with ls. Qed.
+
+  Lemma accepted_state_machine_safety ls s a b k :
+    run4_sim C0 init4 ls = Some s ->
+    k <= commit (nodes (base3 (base4 s)) a) -> k <= commit (nodes (base3 (base4 s)) b) ->
+    firstn k (log (nodes (base3 (base4 s)) a)) = firstn k (log (nodes (base3 (base4 s)) b)).
+  Proof. intros H. apply (state_machine_safety4 _ _ HC). now apply accepted_reachable with ls. Qed.
+
+  Lemma accepted_committed_never_replaced ls s ls' s' i k :
+    run4_sim C0 init4 ls = Some s -> run4_sim C0 s ls' = Some s' ->
+    k <= commit (nodes (base3 (base4 s)) i) ->
+    firstn k (log (nodes (base3 (base4 s')) i)) = firstn k (log (nodes (base3 (base4 s)) i)).
+  Proof.
+    intros H H'. apply (committed_never_replaced4 _ _ HC) with ls'.
+    - now apply accepted_reachable with ls.
+    - now apply accepted_steps.
+  Qed.
+
+  (* a later leader holds everything an earlier leader committed, whatever happens in between *)
+  Lemma accepted_leader_completeness ls s i k s1 ls' s2 j :
+    run4_sim C0 init4 ls = Some s ->
+    step_fn4_sim C0 s (L4Base (L3Base (LAdvanceCommit i k))) = Some s1 ->
+    run4_sim C0 s1 ls' = Some s2 ->
+    role (nodes (base3 (base4 s2)) j) = Leader ->
+    term (nodes (base3 (base4 s)) i) < term (nodes (base3 (base4 s2)) j) ->
+    firstn k (log (nodes (base3 (base4 s2)) j)) = firstn k (log (nodes (base3 (base4 s)) i)).
+  Proof.
+    intros H H1 H2. apply (leader_completeness4_trace _ _ HC) with s1 ls'.
+    - now apply accepted_reachable with ls.
+    - now apply step_fn4_sound.
+    - now apply accepted_steps.
+  Qed.
+
+  Lemma accepted_applied_le_committed ls s i :
+    run4_sim C0 init4 ls = Some s ->
+    applied (base4 s) i <= commit (nodes (base3 (base4 s)) i).
+  Proof. intros H. apply (applied_le_committed4 _ _ HC). now apply accepted_reachable with ls. Qed.
+
+  Lemma accepted_snapshot_is_committed ls s i :
+    run4_sim C0 init4 ls = Some s -> first4 s i <= commit (nodes (base3 (base4 s)) i).
+  Proof. intros H. apply (snapshot_is_committed4 (cfg_sim C0) is_cc_sim). now apply accepted_reachable with ls. Qed.
+
+End AcceptedRun.
